@@ -14,7 +14,9 @@ class MonitorState:
         self.calls = 0           # constructions seen
         self.fast = 0            # constructions re-scanned
         self.enabled = True
-        self.raise_on_fire = True
+        self.busy = False
+        self.partial = 0
+        self.raise_on_fire = False
         self.skip_biclosed = False
 
 
@@ -68,18 +70,19 @@ def _objs(ty):
 
 def scan_problem(d):
     """Re-derive the layer view of a monoidal diagram from dom, boxes, offsets
-    by the defining scan and compare with the stored layers and cod.
-    Returns None when consistent, else a short message.  Types are compared
-    as their lists of objects (that is what Ty.__eq__ does)."""
-    dom, cod = d._dom, d._cod
-    boxes, offsets, layers = d._boxes, d._offsets, d._layers
-    lboxes = layers._boxes
-    if not len(boxes) == len(offsets) == len(lboxes):
+    by the defining scan and compare with its layers and cod.  Uses the PUBLIC
+    view only (dom, cod, boxes, offsets, layers), so that another internal
+    representation of diagrams does not matter.  Returns None when consistent,
+    else a short message.  Types are compared as their lists of objects."""
+    dom, cod = d.dom, d.cod
+    boxes, offsets, layers = d.boxes, d.offsets, d.layers
+    rows = [tuple(layer) for layer in layers.boxes]
+    if not len(boxes) == len(offsets) == len(rows):
         return "lengths differ: boxes=%d offsets=%d layers=%d" % (
-            len(boxes), len(offsets), len(lboxes))
-    if not same_type(layers._dom, dom):
+            len(boxes), len(offsets), len(rows))
+    if not same_type(layers.dom, dom):
         return "layers.dom != dom"
-    if not same_type(layers._cod, cod):
+    if not same_type(layers.cod, cod):
         return "layers.cod != cod"
     scan = _objs(dom)
     for k in range(len(boxes)):
@@ -92,8 +95,7 @@ def scan_problem(d):
             return "box %d does not fit at offset %d" % (k, off)
         if scan[off:off + n] != bdom:
             return "box %d does not find its domain at its offset" % k
-        layer = lboxes[k]
-        left, lbox, right = layer._left, layer._box, layer._right
+        left, lbox, right = rows[k]
         if lbox is not box:
             try:
                 other = bool(lbox != box)
@@ -122,15 +124,16 @@ def same_type(a, b):
 
 def arrow_problem(a):
     """cat.Arrow built with _scan=False: boxes must compose from dom to cod."""
-    scan = a._dom
-    for k, box in enumerate(a._boxes):
+    boxes = a.boxes
+    scan = a.dom
+    for k, box in enumerate(boxes):
         if box is a:
-            return None if (len(a._boxes) == 1) else "box contains itself"
+            return None if (len(boxes) == 1) else "box contains itself"
         if not same_type(box.dom, scan):
             return "arrow box %d does not compose" % k
         scan = box.cod
-    if not same_type(scan, a._cod):
-        return "arrow ends on %s, not on cod %s" % (scan, a._cod)
+    if not same_type(scan, a.cod):
+        return "arrow ends on %s, not on cod %s" % (scan, a.cod)
     return None
 
 
@@ -155,16 +158,27 @@ def install_monitor():
                     and isinstance(value, biclosed.Diagram):
                 return
             MON.fast += 1
+            if MON.busy:
+                return          # a diagram built while the monitor itself reads a lazily built view
+            MON.busy = True
             try:
                 msg = scan_problem(value)
+            except AttributeError:
+                MON.partial += 1     # not fully initialised yet (another constructor layout): no verdict
+                return
             except Exception as err:    # a scan that cannot even run is a firing
                 msg = "monitor scan raised %s: %s" % (type(err).__name__, err)
+            finally:
+                MON.busy = False
         elif caller is arrow_init_code:
             if isinstance(value, cat.Box):
                 return
             MON.fast += 1
             try:
                 msg = arrow_problem(value)
+            except AttributeError:
+                MON.partial += 1
+                return
             except Exception as err:
                 msg = "monitor scan raised %s: %s" % (type(err).__name__, err)
         else:
